@@ -353,8 +353,8 @@ def run(tier, seed, replay):
 
     def tlc_job(c):
         mod, cfg, expect = jobs[c]
-        sd = lib.spec_dir(scr) if c != fams[0] else sdir
-        return lib.run_tlc(sd, mod, cfg, workers=4, timeout=3000, expect_violation=expect)
+        # all jobs read the one specification directory (copying it again would rewrite files other TLC processes are reading)
+        return lib.run_tlc(sdir, mod, cfg, workers=4, timeout=3000, expect_violation=expect)
 
     with cf.ThreadPoolExecutor(len(jobs)) as ex:
         res = dict(zip(jobs, ex.map(tlc_job, jobs)))
